@@ -24,6 +24,7 @@ def run(pid, tier):
         nr, small = (150, 2) if quick else (4000, 4)
         run_impl('drv_surface.py', ['c17', tin, nr, common.seed(), small], timeout=6000)
         cover = 0
+    common.split_error_rows(v, pid, tin)
     rows = json.load(open(tin))
     for r in rows:
         if r['t'] == 'derived_error':
